@@ -342,6 +342,37 @@ def mode_table(repo: Repo, rep):
         for t in n.ast.targets:
             if isinstance(t, ast.Attribute) and isinstance(t.value, ast.Name) and t.value.id in mode_vars:
                 found.setdefault(t.attr, []).append(n)
+    # nothing but the options of the project's configuration is set on the Mode: no other field in the builder, and no field at all on the
+    # Mode it handed out (`mode = file_mode_for_path(..)`, `mode.target_versions = ...` in format_code).  A field fixed by the plugin makes
+    # its formatting differ from what `black <file>` does with the same configuration
+    fields = {fld for fld, _ in MODE_KEYS.values()}
+    for g in m.funcs.values():
+        if g is f:
+            gvars = set(mode_vars)
+        else:
+            gvars = {t.id for st in body_nodes(g.node) if isinstance(st, ast.Assign) and isinstance(st.value, ast.Call) and norm(st.value.func).split(".")[-1] == f.name for t in st.targets if isinstance(t, ast.Name)}
+        if not gvars:
+            continue
+        for st in body_nodes(g.node):
+            tgts = []
+            if isinstance(st, ast.Assign):
+                tgts = st.targets
+            elif isinstance(st, (ast.AugAssign, ast.AnnAssign)):
+                tgts = [st.target]
+            elif isinstance(st, ast.Call) and norm(st.func) == "setattr" and len(st.args) == 3 and isinstance(st.args[0], ast.Name) and st.args[0].id in gvars and isinstance(st.args[1], ast.Constant):
+                if (g is not f or st.args[1].value not in fields) and "config" not in norm(st.args[2]):
+                    rep.violation("R-MODE-TABLE", g, st, f"`{short(st, 60)}` sets a field of black's Mode that is not one of the options read from the project's configuration: files that `black` itself accepts are judged 'not formatted' (the final pass is skipped) or are laid out differently", construct=f"mode-extra-field:{st.args[1].value}")
+            for t in tgts:
+                from_config = getattr(st, "value", None) is not None and "config" in norm(st.value)  # a further option of [tool.black] handed on: not this clause's business
+                if isinstance(t, ast.Attribute) and isinstance(t.value, ast.Name) and t.value.id in gvars and (g is not f or t.attr not in fields) and not from_config:
+                    rep.violation(
+                        "R-MODE-TABLE",
+                        g,
+                        st,
+                        f"`{short(st, 60)}` sets Mode.{t.attr}, which is not one of the options read from the project's black configuration: inline-snapshot then formats with another mode than `black <file>` does - "
+                        "a file that is clean for black is judged 'not formatted' (the final whole-file pass is skipped and a long value stays on one line) or is laid out differently",
+                        construct=f"mode-extra-field:{t.attr}",
+                    )
     table = _option_table(repo, f, mode_vars)
     for key, (field, neg) in MODE_KEYS.items():
         ns = found.get(field, [])
